@@ -8,14 +8,18 @@ EXTENDS Naturals
 N(full, dots3, parsable, maj, min, pat, pre) ==
   [full |-> full, dots3 |-> dots3, parsable |-> parsable, maj |-> maj, min |-> min, pat |-> pat, pre |-> pre]
 
-\* pre-release ranks: 0 = release, 1 = "alpha.1", 2 = "rc.1"
+\* pre-release ranks: 0 = release, 1 = "alpha.1", 2 = "alpha.2", 3 = "alpha.10" (numeric identifiers compare
+\* numerically), 4 = "rc.1"
 MCNameTable ==
-  [n \in {"v3.0.0", "v3.0.1", "3.0.1", "v3.1.0-rc.1", "v3.1.0", "v3.1.0+build.5", "v4.0.0", "v0.0.0",
+  [n \in {"v3.0.0", "v3.0.1", "3.0.1", "v3.1.0-rc.1", "v3.1.0-alpha.2", "v3.1.0-alpha.10", "release/v3.1.0", "v3.1.0", "v3.1.0+build.5", "v4.0.0", "v0.0.0",
           "v0", "v3", "v4", "v3.1", "latest", "rel.2024.01", "v3.1-alpha.1"} |->
      CASE n = "v3.0.0"       -> N(TRUE,  TRUE,  TRUE,  3, 0, 0, 0)
        [] n = "v3.0.1"       -> N(TRUE,  TRUE,  TRUE,  3, 0, 1, 0)
        [] n = "3.0.1"        -> N(TRUE,  TRUE,  TRUE,  3, 0, 1, 0)      \* v-less full version
-       [] n = "v3.1.0-rc.1"  -> N(TRUE,  TRUE,  TRUE,  3, 1, 0, 2)
+       [] n = "v3.1.0-rc.1"  -> N(TRUE,  TRUE,  TRUE,  3, 1, 0, 4)
+       [] n = "v3.1.0-alpha.2"  -> N(TRUE, TRUE, TRUE, 3, 1, 0, 2)
+       [] n = "v3.1.0-alpha.10" -> N(TRUE, TRUE, TRUE, 3, 1, 0, 3)     \* alpha.2 < alpha.10 (not a string comparison)
+       [] n = "release/v3.1.0"  -> N(FALSE, TRUE, FALSE, 0, 0, 0, 0)   \* hierarchical ref name, not a version
        [] n = "v3.1.0"       -> N(TRUE,  TRUE,  TRUE,  3, 1, 0, 0)
        [] n = "v3.1.0+build.5" -> N(TRUE, TRUE, TRUE,  3, 1, 0, 0)      \* build metadata: same precedence as v3.1.0
        [] n = "v4.0.0"       -> N(TRUE,  TRUE,  TRUE,  4, 0, 0, 0)
@@ -33,10 +37,11 @@ R(valid, maj, min, pat, pre, fullname, majorname) ==
 
 MCReqTable ==
   \* fullname is ALWAYS "v" + the canonical Version.String() of the request, however the request is spelled
-  [r \in {"v3.0.1", "v3.1.0-rc.1", "v3.1.0", "v4.0.0", "3.1.0", "v3.1", "3.1", "v4", "v03.1.0", "v3.1.0+build.5",
+  [r \in {"v3.0.1", "v3.1.0-rc.1", "v3.1.0-alpha.2", "v3.1.0", "v4.0.0", "3.1.0", "v3.1", "3.1", "v4", "v03.1.0", "v3.1.0+build.5",
           "v0.0.0", "banana", "", "<missing>"} |->
      CASE r = "v3.0.1"       -> R(TRUE, 3, 0, 1, 0, "v3.0.1", "v3")
-       [] r = "v3.1.0-rc.1"  -> R(TRUE, 3, 1, 0, 2, "v3.1.0-rc.1", "v3")
+       [] r = "v3.1.0-rc.1"  -> R(TRUE, 3, 1, 0, 4, "v3.1.0-rc.1", "v3")
+       [] r = "v3.1.0-alpha.2" -> R(TRUE, 3, 1, 0, 2, "v3.1.0-alpha.2", "v3")
        [] r = "v3.1.0"       -> R(TRUE, 3, 1, 0, 0, "v3.1.0", "v3")
        [] r = "v4.0.0"       -> R(TRUE, 4, 0, 0, 0, "v4.0.0", "v4")
        [] r = "3.1.0"        -> R(TRUE, 3, 1, 0, 0, "v3.1.0", "v3")     \* v-less request
